@@ -54,7 +54,8 @@ def make_cells(rng, recs, d, n, hostile):
     allu = [u for r in recs for u in spec.all_u(r)]
     allp = [p for r in recs for p in spec.all_p(r)]
     pool = [u + rng.choice(["1", "x/y", ""]) for u in allu] + [p + d + rng.choice(["1", "0002", "", "no!", p + d + "7"]) for p in allp]
-    bad = ["zz" + d + "1", "nodelim", "", "http://nope/1", d]
+    # (unconvertible cells that pass through unchanged, among them ones a spreadsheet would read as formulas - seed C16-R)
+    bad = ["zz" + d + "1", "nodelim", "", "http://nope/1", d, "-", "+1 555 0100", "@id", "=x", "=1+1", "\tx", "'q"]
     cells = []
     for _ in range(n):
         r = rng.random()
